@@ -87,7 +87,8 @@ pub fn install_panic_hook() {
         let site = info.location().map(|l| {
             let f = l.file();
             // keep the path relative to the repository so the site is stable
-            let f = f.strip_prefix("/repo/").unwrap_or(f);
+            let root = format!("{}/", crate::subject::repo_root());
+            let f = f.strip_prefix(root.as_str()).unwrap_or(f);
             format!("{}:{}", f, l.line())
         });
         LAST_PANIC_SITE.with(|s| *s.borrow_mut() = site.unwrap_or_else(|| "?".to_string()));
